@@ -4,7 +4,7 @@
 root=$1; id=$2; v=$3; shift 3
 props=("$@"); [ ${#props[@]} -eq 0 ] && props=($id)
 for p in "${props[@]}"; do
-  d=/verif/benign/$id-${v/v/r}; [ "$p" != "$id" ] && d=$d-$p
+  d=/verif/benign/${TAG:-}$id-${v/v/r}; [ "$p" != "$id" ] && d=$d-$p
   mkdir -p $d; cp $root/$id/out/$v/patch.diff $d/; cp $root/$id/out/$v/NOTES.md $d/ 2>/dev/null
   python3 - "$d" "$p" "$id" <<'PY'
 import json,sys,os
